@@ -22,6 +22,7 @@ from .state import (
     PyList,
     PyTuple,
     Res,
+    StarSeq,
     State,
     SuperVal,
     UnderConstruction,
@@ -94,6 +95,10 @@ class Exec(Executor):
         def f(v, s):
             # honour the annotation for empty containers: "result: set[ColumnTag] = set()"
             td = self.types.td_of_annotation(stmt.annotation, self.frame.module)
+            if isinstance(stmt.target, ast.Name) and td != TAny:
+                d = dict(s.ghost.get("decl", {}))
+                d[(s.depth, stmt.target.id)] = td
+                s.ghost["decl"] = d
             if isinstance(v, PyList) and not v.items and isinstance(td, TSeqT):
                 v = SV(td, td.info.empty, fresh=True)
             elif isinstance(v, SV) and v.td == TTagSet and td != TTagSet and isinstance(stmt.value, ast.Call) and not stmt.value.args:
@@ -434,7 +439,7 @@ class Exec(Executor):
         if isinstance(v, SV):
             nv = v.td.fresh("hv_" + name)
             nv.fresh = v.fresh
-            st.assume(*self.types.typing_fact(nv.z, v.td))
+            st.assume(*self.type_facts(nv.z, v.td, st))
             if isinstance(v.td, TSeqT):
                 st.assume(v.td.info.len(nv.z) >= 0)
             return nv
@@ -598,18 +603,25 @@ class Exec(Executor):
         env: dict[str, Any] = {}
         args = list(args)
         if fi.kind in ("method", "property", "classmethod") and recv is not None and fi.cls is not None:
-            if pos:
-                env[pos[0]] = recv
-                pos = pos[1:]
-        elif fi.kind == "method" and recv is None and fi.cls is not None and pos and pos[0] in ("self",):
-            # unbound call  Class.method(obj, ...)
-            pass
+            args = [recv] + args
         n_pos = len(pos)
         for name, v in zip(pos, args):
+            if isinstance(v, StarSeq):
+                raise OutsideSubset(f"symbolic *args bound to a positional parameter of {fi.qualname}", node)
             env[name] = v
         rest = args[n_pos:]
         if a.vararg is not None:
-            env[a.vararg.arg] = PyTuple(rest)
+            if len(rest) == 1 and isinstance(rest[0], StarSeq):
+                env[a.vararg.arg] = rest[0].seq
+            elif any(isinstance(x, StarSeq) for x in rest):
+                sq = [x for x in rest if isinstance(x, StarSeq)][0].seq
+                acc = None
+                for x in rest:
+                    part = x.seq if isinstance(x, StarSeq) else self.seq_from_items([x], sq.td, st)
+                    acc = part if acc is None else self.seq_concat(acc, part, st)
+                env[a.vararg.arg] = acc
+            else:
+                env[a.vararg.arg] = PyTuple(rest)
         elif rest:
             raise OutsideSubset(f"too many positional arguments for {fi.qualname}", node)
         kwonly = [x.arg for x in a.kwonlyargs]
@@ -661,7 +673,7 @@ class Exec(Executor):
 
     # ------------------------------------------------------------ functions
     def find_contract(self, fi: FuncInfo, recv_cls: ClassInfo | None) -> Contract | None:
-        k = self.reg.get(fi.qualname)
+        k = self.reg.get(fi.key)
         if k is not None:
             return k
         # a virtual contract declared on an ancestor's method of the same name
@@ -669,7 +681,7 @@ class Exec(Executor):
             for c in fi.cls.mro[1:]:
                 m = c.methods.get(fi.name)
                 if m is not None:
-                    k = self.reg.get(m.qualname)
+                    k = self.reg.get(m.key)
                     if k is not None and k.virtual:
                         return k
         return None
@@ -785,7 +797,7 @@ class Exec(Executor):
             res = td.fresh("r_" + fi.name)
             res.fresh = k.fresh_result
         if isinstance(res, SV):
-            post.assume(*self.types.typing_fact(res.z, td))
+            post.assume(*self.type_facts(res.z, td, post))
             if k.fresh_result and isinstance(td, TRefT):
                 post.assume(smt.born(res.z) == self.born_clock)
                 self.born_clock += 1
@@ -826,7 +838,7 @@ class Exec(Executor):
         if ci.is_dataclass:
             return self.construct_dataclass(ci, ref, args, kwargs, st, node)
         init = ci.lookup("__init__")
-        uc = UnderConstruction(ref, ci, {})
+        uc = UnderConstruction(ref, ci)
         if init is not None:
             def fin(_v, s):
                 return self.commit(uc, s, node)
@@ -889,7 +901,9 @@ class Exec(Executor):
                     initvars[f.name] = v
                 else:
                     pending[f.name] = v
-            uc = UnderConstruction(ref, ci, pending)
+            uc = UnderConstruction(ref, ci)
+            for _n, _v in pending.items():
+                uc.set_pending(s, _n, _v)
             post = ci.lookup("__post_init__")
             if post is not None:
                 iv = [initvars[n] for n in [x.arg for x in post.node.args.args[1:]] if n in initvars]
@@ -901,7 +915,7 @@ class Exec(Executor):
     def commit(self, uc: UnderConstruction, st: State, node: ast.AST) -> list[Res]:
         ci, ref = uc.cls, uc.ref
         own: dict[str, bool] = {}
-        for name, v in uc.pending.items():
+        for name, v in list(uc.pending(st).items()):
             decl = self.types.attr_decl(ci, name)
             if decl is not None and decl[0] == "field":
                 owner = decl[1]
@@ -933,6 +947,12 @@ class Exec(Executor):
             for cl in self.reg.constructor_hooks.get(c.name, []):
                 ctx = Ctx(self, {"self": ref}, "prove", st, st)
                 self.oblige(st, f"construct {ci.name}/{cl.label}", smt.lift(cl.fn(ctx)).z, node, kind="construct")
+        for c in ci.mro:
+            for cl in self.reg.object_invariants.get(c.name, []):
+                if getattr(cl, "assumed_only", False):
+                    continue
+                ctx = Ctx(self, {"self": ref}, "prove", st, st)
+                self.oblige(st, f"construct {ci.name}/inv/{cl.label}", smt.lift(cl.fn(ctx, ref)).z, node, kind="construct")
         h = self.hooks.get("constructed")
         if h is not None:
             h(self, ref, ci, st, node)
